@@ -490,8 +490,8 @@ def run(chk, tier):
         chk.analysis_broken('FIELDCAST: no store into the size member of the string found (floor 1)')
     _X10.positive_controls(chk, D, ('FIELDCAST',))
     from ..rules import extra10 as _X10c
-    if _X10c.char_cast_area(chk, db, ('_string/char_traits.hpp',)) < 2:      # CHARCAST
-        chk.analysis_broken('CHARCAST: fewer than 2 narrowing conversions of a character found in char_traits (floor 2)')
+    _X10c.char_cast_area(chk, db, ('_string/char_traits.hpp',))      # CHARCAST (may match nothing: then the controls carry it)
+    _X10c.char_cast_control(chk, D)
     from ..rules import exits as _EXW
     if _EXW.pos_wrap_area(chk, db, ['_string/', '_strings/', '_string_view/']) < 3:      # WRAP
         chk.analysis_broken('WRAP: fewer than 3 members that add to a position argument (floor 3)')
